@@ -64,7 +64,7 @@ type ReverseSuffixSearcher struct {
 	reverseDFA     *lazy.DFA
 	forwardDFA     *lazy.DFA
 	prefilter      prefilter.Prefilter
-	pikevm         *nfa.PikeVM
+	pikevm         *pooledPikeVM
 	suffixLen      int    // Length of the suffix literal for calculating revEnd
 	suffixBytes    []byte // Suffix literal bytes for FindLast optimization
 	matchStartZero bool   // True if pattern starts with .* (match always starts at 0)
@@ -132,7 +132,7 @@ func NewReverseSuffixSearcher(
 	}
 
 	// Create PikeVM for fallback
-	pikevm := nfa.NewPikeVM(forwardNFA)
+	pikevm := newPooledPikeVM(forwardNFA)
 
 	// matchStartZero is true only when pattern has .* prefix (e.g., `.*\.txt`).
 	// Only OpStar(AnyChar) guarantees match starts at 0/at — skip reverse DFA.
